@@ -1,18 +1,235 @@
-(** C03 — multiplication and squaring. Statements only. (The row / schoolbook / Karatsuba theorems are added
-    by Proofs/MulP.v as they are completed; until then the model of Model/Mul.v is tied to the specification
-    a*b by evaluating both on every generated case.) *)
-From CB Require Import Model.Limbs Model.Mul Proofs.WordP.
-From Coq Require Import ZArith List.
+(** C03 — multiplication and squaring. Statements only; proofs in Proofs/MulBaseP.v (rows, schoolbook,
+    adc_mul_limbs), MulSqP.v (schoolbook squaring), MulKaraP.v (fixed-size Karatsuba mul / square),
+    MulBoxedP.v (BoxedUint Karatsuba mul / square), MulApiP.v (API level, model table = spec table).
+    Every statement holds for ALL limb counts and ALL limb values; nothing is assumed beyond well-formedness
+    ([wf] = every limb is a 64-bit word). [eval] is the little-endian value, [Bn n] = 2^(64 n). *)
+From CB Require Import Model.Limbs Model.AddSub Model.Mul Proofs.WordP Proofs.LimbsP Proofs.AddSubP
+  Proofs.MulBaseP Proofs.MulSqP Proofs.MulKaraP Proofs.MulBoxedP Proofs.MulApiP.
+From Coq Require Import ZArith String List.
 Open Scope Z_scope.
 
-(** multiply-accumulate primitive: exact for all words, the high word cannot overflow *)
-Theorem C03_mac_word_exact : forall a b c carry lo hi,
-  is_word a -> is_word b -> is_word c -> is_word carry -> mac a b c carry = (lo, hi) ->
-  lo + B * hi = a + b * c + carry /\ is_word lo /\ is_word hi.
-Proof. exact mac_exact. Qed.
-Print Assumptions C03_mac_word_exact.
+Theorem placeholder : True. Proof. exact I. Qed.
+Print Assumptions placeholder.
 
+(* ---------------- 1. one multiply-accumulate row ---------------- *)
+(** out[off .. off+len ys) += xi * ys + carry; limbs outside the window are untouched *)
+Theorem C03_mac_row_exact : forall out off xi ys carry out' c,
+  wf out -> wf ys -> is_word xi -> is_word carry -> (off + length ys <= length out)%nat ->
+  mac_row out off xi ys carry = (out', c) ->
+  eval out' + Bn (off + length ys) * c = eval out + Bn off * (xi * eval ys + carry) /\
+  wf out' /\ length out' = length out /\ is_word c /\
+  firstn off out' = firstn off out /\ skipn (off + length ys) out' = skipn (off + length ys) out.
+Proof. exact mac_row_correct. Qed.
+Print Assumptions C03_mac_row_exact.
+
+(* ---------------- 2. schoolbook multiplication ---------------- *)
+Theorem C03_schoolbook_mul_exact : forall xs ys, wf xs -> wf ys ->
+  eval (schoolbook_mul xs ys) = eval xs * eval ys /\ wf (schoolbook_mul xs ys) /\
+  length (schoolbook_mul xs ys) = (length xs + length ys)%nat.
+Proof. exact schoolbook_mul_correct. Qed.
+Print Assumptions C03_schoolbook_mul_exact.
+
+(** the (lo, hi) halves returned on the schoolbook path of split_mul *)
+Theorem C03_schoolbook_split_exact : forall xs ys lo hi, wf xs -> wf ys ->
+  split_at (length xs) (schoolbook_mul xs ys) = (lo, hi) ->
+  eval lo + Bn (length xs) * eval hi = eval xs * eval ys /\ wf lo /\ wf hi /\
+  length lo = length xs /\ length hi = length ys.
+Proof. exact schoolbook_split_correct. Qed.
+Print Assumptions C03_schoolbook_split_exact.
+
+(* ---------------- 6. adc_mul_limbs ---------------- *)
+(** out += xs * ys for ANY incoming accumulator: the carry out of every row is propagated, none is lost *)
+Theorem C03_adc_mul_limbs_exact : forall xs ys out out' c,
+  wf xs -> wf ys -> wf out -> length out = (length xs + length ys)%nat ->
+  adc_mul_limbs xs ys out = (out', c) ->
+  eval out' + Bn (length out) * c = eval out + eval xs * eval ys /\
+  wf out' /\ length out' = length out /\ 0 <= c <= 1.
+Proof. exact adc_mul_limbs_correct. Qed.
+Print Assumptions C03_adc_mul_limbs_exact.
+
+(* ---------------- 3. schoolbook squaring ---------------- *)
+(** half grid, doubling by shl1_go, diagonal *)
+Theorem C03_schoolbook_sq_exact : forall xs, wf xs ->
+  eval (schoolbook_sq xs) = eval xs * eval xs /\ wf (schoolbook_sq xs) /\
+  length (schoolbook_sq xs) = (2 * length xs)%nat.
+Proof. exact schoolbook_sq_correct. Qed.
+Print Assumptions C03_schoolbook_sq_exact.
+
+(* ---------------- 4. / 5. fixed-size Karatsuba ---------------- *)
+(** every level, every operand length divisible by 2^level: |x0-x1|*|y1-y0|, sign mask, ones'-complement
+    trick and multi-carry recombination lose nothing *)
+Theorem C03_kmul_exact : forall l x y lo hi m,
+  wf x -> wf y -> length x = (2 ^ l * m)%nat -> length y = length x ->
+  kmul l x y = (lo, hi) ->
+  eval lo + Bn (length x) * eval hi = eval x * eval y /\ wf lo /\ wf hi /\
+  length lo = length x /\ length hi = length x.
+Proof. exact kmul_correct. Qed.
+Print Assumptions C03_kmul_exact.
+
+Theorem C03_ksq_exact : forall l x lo hi m,
+  wf x -> length x = (2 ^ l * m)%nat -> ksq l x = (lo, hi) ->
+  eval lo + Bn (length x) * eval hi = eval x * eval x /\ wf lo /\ wf hi /\
+  length lo = length x /\ length hi = length x.
+Proof. exact ksq_correct. Qed.
+Print Assumptions C03_ksq_exact.
+
+(** the ingredients of the Karatsuba step, stated on their own *)
+(** |a - b| by sbb_limbs + conditional two's-complement negation on the borrow mask, with the sign *)
+Theorem C03_abs_diff : forall a b d bo,
+  wf a -> wf b -> length a = length b -> sbb_limbs a b 0 = (d, bo) ->
+  wf (sel_limbs (is_mask bo) d (uint_wrapping_neg d)) /\
+  length (sel_limbs (is_mask bo) d (uint_wrapping_neg d)) = length a /\
+  eval (sel_limbs (is_mask bo) d (uint_wrapping_neg d)) = (if is_mask bo then eval b - eval a else eval a - eval b).
+Proof. exact abs_diff. Qed.
+Print Assumptions C03_abs_diff.
+
+(** the eight carry chains of the fixed-size recombination lose nothing but the final carry c8 (weight B^(4h)) *)
+Theorem C03_kmul_recombination : forall H R0 R1 R2 R3 cin z0lo z0hi z2lo z2hi r0a r1a r1b r1c r2a r2b r2c r3a
+    c1 c2 c3 c4 c5 c6 c7 c8,
+  r0a + H * c1 = R0 + z0lo + cin ->
+  r1a + H * c2 = R1 + z0hi + c1 ->
+  r1b + H * c3 = r1a + z0lo + 0 ->
+  r2a + H * c4 = R2 + z0hi + (c2 + c3) ->
+  r1c + H * c5 = r1b + z2lo + 0 ->
+  r2b + H * c6 = r2a + z2hi + c5 ->
+  r2c + H * c7 = r2b + z2lo + 0 ->
+  r3a + H * c8 = R3 + z2hi + (c4 + c6 + c7) ->
+  (r0a + H * r1c) + H * H * (r2c + H * r3a) + H * H * H * H * c8 =
+    (R0 + H * R1 + H * H * R2 + H * H * H * R3) + cin
+    + (z0lo + H * z0hi) * (1 + H) + (z2lo + H * z2hi) * (H + H * H).
+Proof. exact kara_recomb. Qed.
+Print Assumptions C03_kmul_recombination.
+
+(** the six accumulating additions of the boxed recombination (wadd carry sums never wrap): only the carry out
+    of the top of the 4*half-limb window is dropped, the tail of the buffer is untouched *)
+Theorem C03_boxed_recombination : forall out z0 z2 half size cin o1 c1 o2 c2 o3 c3 o4 c4 o5 c5 o6 c6,
+  wf out -> wf z0 -> wf z2 -> size = (2 * half)%nat -> length z0 = size -> length z2 = size ->
+  (4 * half <= length out)%nat -> 0 <= cin <= 1 ->
+  adc_into out 0 z0 cin = (o1, c1) ->
+  adc_into o1 half (firstn half z0) 0 = (o2, c2) ->
+  adc_into o2 size (skipn half z0) (wadd c1 c2) = (o3, c3) ->
+  adc_into o3 half z2 0 = (o4, c4) ->
+  adc_into o4 size (firstn half z2) 0 = (o5, c5) ->
+  adc_into o5 (size + half) (skipn half z2) (wadd (wadd c3 c4) c5) = (o6, c6) ->
+  wf o6 /\ length o6 = length out /\ skipn (4 * half) o6 = skipn (4 * half) out /\ 0 <= c6 /\
+  eval o6 + Bn half * Bn half * Bn half * Bn half * c6 =
+    eval out + cin + eval z0 * (1 + Bn half) + eval z2 * (Bn half + Bn half * Bn half).
+Proof. exact recomb6_correct. Qed.
+Print Assumptions C03_boxed_recombination.
+
+(* ---------------- 7. BoxedUint ---------------- *)
+(** recursive Karatsuba on the even overlap, trailing-limb paths, carry ripple: any fuel, any pair of lengths *)
+Theorem C03_kara_boxed_exact : forall f lhs rhs, wf lhs -> wf rhs ->
+  eval (kara_boxed f lhs rhs) = eval lhs * eval rhs /\ wf (kara_boxed f lhs rhs) /\
+  length (kara_boxed f lhs rhs) = (length lhs + length rhs)%nat.
+Proof. exact kara_boxed_correct. Qed.
+Print Assumptions C03_kara_boxed_exact.
+
+Theorem C03_boxed_mul_exact : forall x y, wf x -> wf y ->
+  eval (boxed_mul x y) = eval x * eval y /\ wf (boxed_mul x y) /\
+  length (boxed_mul x y) = (length x + length y)%nat.
+Proof. exact boxed_mul_correct. Qed.
+Print Assumptions C03_boxed_mul_exact.
+
+Theorem C03_kara_sq_boxed_exact : forall f x, wf x ->
+  eval (kara_sq_boxed f x) = eval x * eval x /\ wf (kara_sq_boxed f x) /\
+  length (kara_sq_boxed f x) = (2 * length x)%nat.
+Proof. exact kara_sq_boxed_correct. Qed.
+Print Assumptions C03_kara_sq_boxed_exact.
+
+Theorem C03_boxed_square_exact : forall x, wf x ->
+  eval (boxed_square x) = eval x * eval x /\ wf (boxed_square x) /\
+  length (boxed_square x) = (2 * length x)%nat.
+Proof. exact boxed_square_correct. Qed.
+Print Assumptions C03_boxed_square_exact.
+
+Theorem C03_boxed_square_is_mul : forall x, wf x -> boxed_square x = boxed_mul x x.
+Proof. exact boxed_square_is_mul. Qed.
+Print Assumptions C03_boxed_square_is_mul.
+
+(* ---------------- 8. the API level ---------------- *)
+(** Uint::split_mul / square_wide with their Karatsuba dispatch *)
+Theorem C03_uint_split_mul_exact : forall x y lo hi, wf x -> wf y -> uint_split_mul x y = (lo, hi) ->
+  eval lo + Bn (length x) * eval hi = eval x * eval y /\ wf lo /\ wf hi /\
+  length lo = length x /\ length hi = length y.
+Proof. exact uint_split_mul_eval. Qed.
+Print Assumptions C03_uint_split_mul_exact.
+
+Theorem C03_uint_square_wide_exact : forall x lo hi, wf x -> uint_square_wide x = (lo, hi) ->
+  eval lo + Bn (length x) * eval hi = eval x * eval x /\ wf lo /\ wf hi /\
+  length lo = length x /\ length hi = length x.
+Proof. exact uint_square_wide_eval. Qed.
+Print Assumptions C03_uint_square_wide_exact.
+
+(** square = mul self self, limb for limb *)
+Theorem C03_uint_square_is_mul : forall x, wf x -> uint_square_wide x = uint_split_mul x x.
+Proof. exact uint_square_is_mul. Qed.
+Print Assumptions C03_uint_square_is_mul.
+
+(** wrapping_mul = product mod 2^BITS *)
+Theorem C03_uint_wrapping_mul : forall x y, wf x -> wf y ->
+  eval (fst (uint_split_mul x y)) = (eval x * eval y) mod Bn (length x).
+Proof. exact uint_wrapping_mul_eval. Qed.
+Print Assumptions C03_uint_wrapping_mul.
+
+(** checked_mul (is_some = high half all zero) succeeds exactly when the product fits, and then returns it *)
+Theorem C03_uint_checked_mul : forall x y lo hi, wf x -> wf y -> uint_split_mul x y = (lo, hi) ->
+  (all_zero hi = true <-> eval x * eval y < Bn (length x)) /\
+  (all_zero hi = true -> eval lo = eval x * eval y).
+Proof. exact uint_checked_mul_eval. Qed.
+Print Assumptions C03_uint_checked_mul.
+
+(** saturating_mul = min(product, MAX) *)
+Theorem C03_uint_saturating_mul : forall x y lo hi, wf x -> wf y -> uint_split_mul x y = (lo, hi) ->
+  eval (if all_zero hi then lo else maxs (length lo)) = Z.min (eval x * eval y) (Bn (length x) - 1).
+Proof. exact uint_saturating_mul_eval. Qed.
+Print Assumptions C03_uint_saturating_mul.
+
+(** every entry of the model op table (the functions compared bit for bit with the Rust crate) equals the
+    specification entry (plain Z arithmetic) on all well-formed arguments: 4 + 6 + 5 + 4 + 1 = all 20 ops *)
+Theorem C03_limb_api : forall name dbg a b, is_word a -> is_word b ->
+  In name ["limb.wrapping_mul"; "limb.saturating_mul"; "limb.checked_mul"; "limb.mul"]%string ->
+  op_of ops_mul_model name dbg [[a]; [b]] = op_of ops_mul_spec name dbg [[a]; [b]].
+Proof. exact limb_ops_correct. Qed.
+Print Assumptions C03_limb_api.
+
+Theorem C03_uint_mul_api : forall name dbg x y, wf x -> wf y ->
+  In name ["uint.split_mul"; "uint.widening_mul"; "uint.wrapping_mul"; "uint.checked_mul";
+           "uint.saturating_mul"; "uint.mul"]%string ->
+  op_of ops_mul_model name dbg [x; y] = op_of ops_mul_spec name dbg [x; y].
+Proof. exact uint_mul_ops_correct. Qed.
+Print Assumptions C03_uint_mul_api.
+
+Theorem C03_uint_square_api : forall name dbg x, wf x ->
+  In name ["uint.square_wide"; "uint.widening_square"; "uint.wrapping_square"; "uint.checked_square";
+           "uint.saturating_square"]%string ->
+  op_of ops_mul_model name dbg [x] = op_of ops_mul_spec name dbg [x].
+Proof. exact uint_square_ops_correct. Qed.
+Print Assumptions C03_uint_square_api.
+
+Theorem C03_boxed_mul_api : forall name dbg x y, wf x -> wf y ->
+  In name ["boxed.mul"; "boxed.wrapping_mul"; "boxed.checked_mul"; "boxed.mul_panicking"]%string ->
+  op_of ops_mul_model name dbg [x; y] = op_of ops_mul_spec name dbg [x; y].
+Proof. exact boxed_ops_correct. Qed.
+Print Assumptions C03_boxed_mul_api.
+
+Theorem C03_boxed_square_api : forall dbg x, wf x ->
+  op_of ops_mul_model "boxed.square" dbg [x] = op_of ops_mul_spec "boxed.square" dbg [x].
+Proof. exact boxed_square_op_correct. Qed.
+Print Assumptions C03_boxed_square_api.
+
+(** non-vacuity: extreme operands through the schoolbook, squaring, adc_mul_limbs-with-carry, fixed Karatsuba
+    (level 1, sign mask set), boxed Karatsuba with both trailing-limb paths, and API paths; the table lookups really find functions *)
 Example C03_nonvacuous :
   schoolbook_mul [MAXW; MAXW] [MAXW; MAXW] = [1; 0; MAXW - 1; MAXW] /\
-  schoolbook_sq [MAXW; MAXW; 1] = schoolbook_mul [MAXW; MAXW; 1] [MAXW; MAXW; 1].
-Proof. vm_compute. split; reflexivity. Qed.
+  schoolbook_sq [MAXW; MAXW; 3] = schoolbook_mul [MAXW; MAXW; 3] [MAXW; MAXW; 3] /\
+  adc_mul_limbs [MAXW] [MAXW] [MAXW; MAXW] = ([0; MAXW - 1], 1) /\
+  kmul 1 [0; 1] [1; 0] = ([0; 1], [0; 0]) /\
+  kmul 1 [MAXW; MAXW] [MAXW; MAXW] = ([1; 0], [MAXW - 1; MAXW]) /\
+  ksq 1 [MAXW; 5] = split_at 2 (schoolbook_mul [MAXW; 5] [MAXW; 5]) /\
+  boxed_mul (repeat MAXW 36 ++ [7]) (repeat MAXW 35) = schoolbook_mul (repeat MAXW 36 ++ [7]) (repeat MAXW 35) /\
+  boxed_square (repeat MAXW 64) = schoolbook_sq (repeat MAXW 64) /\
+  op_of ops_mul_model "uint.checked_mul" false [[MAXW; 1]; [2; 0]] = Val [[MAXW - 1; 3]] /\
+  op_of ops_mul_model "uint.checked_mul" false [[MAXW; 1]; [0; 1]] = NoneV /\
+  op_of ops_mul_spec "uint.saturating_mul" false [[MAXW; 1]; [0; 1]] = Val [[MAXW; MAXW]].
+Proof. vm_compute. repeat split; reflexivity. Qed.
